@@ -3,6 +3,8 @@ from ..rules import par, gr
 
 
 def check(ctx, rep):
+    from ..rules import shape as _shape
+    _shape.gr_10b(ctx, rep, ['parso/python/tree.py', 'parso/python/parser.py'])
     par.par_3(ctx, rep)
     par.par_4(ctx, rep)
     par.par_5(ctx, rep)
